@@ -120,18 +120,25 @@ CHECKS = {
         "note": ("Partial. Trusted: Coq kernel, translator, extraction, driver, the oracle's interpreter of CSS values; parse/css is run, not modelled."),
     },
     "C01": {
-        "engine": "JsPrint", "design_ref": "DESIGN.md section 4 / C01",
-        "technique": "Coq proof (printed tokens derive the stripped tree in the ECMA-262 grammar, for all parser-shaped trees, parametric in the regenerated precedence maps) + token correspondence; node vm differential execution as search",
-        "text": ("Theorems (Props/C01.v): the precedence maps regenerated from js/util.go satisfy prec_tables_ok; for every expression tree a conforming parser "
-                 "can produce, at every context level, the printer's tokens derive in the ECMA-262 expression grammar (own level tables) the same tree with "
-                 "exactly the dropped parentheses removed; the output is a fixed point of the printer; the one deliberate re-association of && / || is "
-                 "value-preserving; without the repaired table entries the statement is refuted (K11). Tie: T-gen for the maps + the extracted printer "
-                 "must reproduce the token sequence of the real js.Minify on 6,000 random operator expressions per run. PARTIAL: all rewrites (conditional/"
-                 "boolean/nullish folding, statement merging, hoisting, dead code), literals, statements, classes etc. are decided by search only: 1,500 "
-                 "generated programs per quick run executed in node 20 (vm) before and after minification under several configurations, comparing host-call "
-                 "traces, final globals and completion. 12 defects found this way were repaired in /repo; 14 remain open (K01-K05, K07, K09, K14, K73-K78)."),
-        "note": ("Partial (printer precedence proved; behaviour of rewrites searched). Trusted: Coq kernel, translator, extraction, driver, PrintSpec.v as the "
-                 "grammar (unambiguity assumed), node 20 as reference engine, the generator's determinism hygiene."),
+        "engine": "JsPrint", "design_ref": "DESIGN.md section 4 / C01 and section 10",
+        "technique": "Coq proofs: (1) printed tokens derive the stripped tree in the ECMA-262 grammar for all parser-shaped trees, parametric in the regenerated precedence maps and constant guards; (2) the on-the-fly rewrites (optimizeUnaryExpr / optimizeBooleanExpr / optimizeCondExpr, transcribed) preserve value and side effects for every expression, store and interpretation of the abstract operators; token correspondence with the real minifier for both; node vm differential execution as search",
+        "text": ("Theorems (Props/C01.v): the precedence maps and constant guards regenerated from js/util.go / js.go satisfy prec_tables_ok; for every "
+                 "expression tree a conforming parser can produce, at every context level, the printer's tokens derive in the ECMA-262 expression grammar "
+                 "(own level tables) the same tree with exactly the dropped parentheses removed, incl. the replaced constants true/false/undefined/Infinity; "
+                 "the output is a fixed point; every groupExpr operand site of js/*.go (26, regenerated) passes a sufficient level; && / || re-association is "
+                 "value-preserving; and the rewrites of optimizeUnaryExpr, optimizeBooleanExpr and optimizeCondExpr (12 forms: !!, != for !(==), De Morgan, "
+                 "a?true:false, a?a:b, a?b:a, a?b:b, a?f(x):f(y), nested conditionals, !a?x:y, constant conditions, comma hoisting) evaluate to the same value "
+                 "and leave the same store for EVERY expression, store and interpretation of calls / == / relational / arithmetic operators as arbitrary "
+                 "state transformers (identifier reads effect-free: the minifier's own assumption); the one excluded shape (const_assign_hazard) is finding "
+                 "K118 on the real code; the call-merge defect K02 was found while writing this semantics and repaired. Ties: T-gen for maps, guards and "
+                 "sites + the extracted print / print_rw must reproduce the token sequence of the real js.Minify on 6,000 operator expressions and 6,000 "
+                 "rewrite-fragment expressions per run (a disagreement is handed to node as a program). PARTIAL: statement-level rewrites, literals, "
+                 "hoisting, dead code, classes etc. are decided by search only: 1,500 generated programs per quick run executed in node 20 (vm) before and "
+                 "after minification under several configurations. 16 defects found were repaired in /repo; 15 remain open (K01, K03-K05, K07, K09, K14, "
+                 "K73-K78, K118)."),
+        "note": ("Partial (printer precedence and expression rewrites proved on the stated fragment; behaviour of everything else searched). Trusted: Coq "
+                 "kernel, translator, extraction, driver, PrintSpec.v as the grammar (unambiguity assumed), RewriteSem.v as the meaning of the fragment, "
+                 "node 20 as reference engine."),
     },
     "C05": {
         "engine": "SvgPath", "design_ref": "DESIGN.md section 4 / C05",
